@@ -175,6 +175,7 @@ fn site_index(site: &str) -> usize {
         "graph::ObjectId::next" => 0,
         "autohint::metrics::before_read" => 1,
         "autohint::metrics::after_read" => 2,
+        "autohint::metrics::before_write" => 3,
         _ => 3,
     }
 }
